@@ -64,7 +64,7 @@ def gen_timing(rng):
         start = rng.choice([1500000000, 1549000000, 1560000000, 1600000000]) + rng.choice([0, 0.5])
     first = rng.choice([0.0, 123.0, 999.25, 10.5])
     sync = start - first
-    int_time = rng.choice([0.5, 1.0, 2.0, 4.0, 8.0])
+    int_time = rng.choice([0.5, 1.0, 2.0, 4.0, 8.0, 0.75, 1.5, 2.5])
     cbf = rng.choice([None, 0.25, 0.5, 0.5, 1.0, 0.125])
     if cbf is not None and cbf > int_time:
         cbf = int_time
@@ -628,11 +628,12 @@ def run(ctx):
         via = 'open' if rng.random() < 0.25 else 'direct'
         check_preselect_equiv(ctx, t, T, F, dsl, csl, via=via, cw=rng.choice([1.0, 0.5, 4.0, 208984.375]),
                               centre=rng.choice(CENTRES))
-    for _ in range(ctx.scale(4, 40)):
+    for _ in range(ctx.scale(6, 60)):
         t = gen_timing(rng)
         T1, T2, F = rng.randint(1, 4), rng.randint(1, 4), rng.choice([3, 4, 5, 8])
         c = rng.randint(0, F - 1)
-        a = rng.randint(0, T1 + T2 - 1)
+        # a dump range that is non-empty in BOTH parts (were it applied to each part on its own, it would be accepted)
+        a = rng.randint(0, min(T1, T2) - 1)
         check_concat(ctx, t, T1, T2, F, (c, rng.randint(c + 1, F)), (a, rng.randint(a + 1, T1 + T2)))
     check_preselect_validation(ctx)
 
